@@ -17,8 +17,8 @@ structure Options where
   singleQuotes : Bool := false
   format : Bool := true
   formatLeafNode : Bool := false
-  formatSkip : List Str := ["html".toList.map Char.toNat]
-  formatForce : List Str := ["body".toList.map Char.toNat]
+  formatSkip : List Str := Gen.formatSkip
+  formatForce : List Str := Gen.formatForce
   inlineBreak : Nat := 3
   compactBoolean : Bool := false
   booleanAttributes : List Str := Gen.booleanAttributes
